@@ -2,7 +2,9 @@
 C14 lemmas, part 6: over histories. As long as the cache entry is a coherent copy of one version (its ETag is that
 version's ETag, its Content-Length is the body's), every answer is justified against the response that would otherwise be
 sent; and the entry stays coherent unless one of three things happens (each a confirmed defect of the real code):
-a 304 carrying Content-Length, a 304 carrying another version's ETag, a failed revalidation of a request with If-Match.
+a 304 carrying another version's ETag, a failed revalidation of a request with If-Match. (A third one, a 304 carrying
+Content-Length, was repaired in /repo commit c3c036b: `skipUpdateHeader` now exempts Content-Length, the generated table
+says so, and the exclusion is gone.)
 -/
 import SquidModel.Cache.CondWfField
 import SquidModel.Cache.CondHistory
@@ -36,10 +38,8 @@ structure Entry.Faithful (vers : List Ver) (e : Entry) : Prop where
 
 def StateOk (vers : List Ver) (s : Option Entry) : Prop := ∀ e, s = some e → e.Faithful vers
 
-/-- the three excluded regions, relative to the current cache state -/
+/-- the two excluded regions, relative to the current cache state -/
 structure StepClean (vers : List Ver) (st : Step) (s : Option Entry) : Prop where
-  /-- the origin's 304 carries no Content-Length -/
-  noCl : ∀ n, st.omode ≠ .cl n
   /-- a 304 that revalidates the stale entry carries the stored entity-tag -/
   sameTag : ∀ e k cl, s = some e → e.fresh = false → originReply vers st (revalFwd e st) = .notMod k cl →
     (verOf vers k).etag = (verOf vers e.body).etag
@@ -63,6 +63,8 @@ def Justified (vers : List Ver) (st : Step) (s : Option Entry) : Out → Prop
 
 theorem skips_etag : skipsUpdate "ETAG" = false := by decide
 theorem skips_lm : skipsUpdate "LAST_MODIFIED" = false := by decide
+/-- since /repo c3c036b: a 304 does not update the stored Content-Length (regenerated from src/HttpHeader.cc every run) -/
+theorem skips_cl : skipsUpdate "CONTENT_LENGTH" = true := by decide
 
 theorem trimValue_etagOk {v : Option Bytes} (h : EtagOk v) : v.map trimValue = v := by
   cases h with
@@ -255,10 +257,10 @@ theorem stepHit_ok {vers : List Ver} (hv : VersOk vers) {st : Step} (hok : StepO
     simp
 
 theorem update304_faithful {vers : List Ver} (hv : VersOk vers) {e : Entry} (hf : e.Faithful vers) (k i : Nat) (fr : Bool)
-    (htag : (verOf vers k).etag = (verOf vers e.body).etag) :
-    (update304 vers e k i fr none).Faithful vers ∧ (update304 vers e k i fr none).etag = (verOf vers k).etag := by
-  have hbody : (update304 vers e k i fr none).body = e.body := rfl
-  have hetag : (update304 vers e k i fr none).etag = (verOf vers k).etag := by
+    (cl : Option Nat) (htag : (verOf vers k).etag = (verOf vers e.body).etag) :
+    (update304 vers e k i fr cl).Faithful vers ∧ (update304 vers e k i fr cl).etag = (verOf vers k).etag := by
+  have hbody : (update304 vers e k i fr cl).body = e.body := rfl
+  have hetag : (update304 vers e k i fr cl).etag = (verOf vers k).etag := by
     unfold update304
     simp only [skips_etag, Bool.false_eq_true, if_false]
     cases hk : (verOf vers k).etag with
@@ -270,7 +272,11 @@ theorem update304_faithful {vers : List Ver} (hv : VersOk vers) {e : Entry} (hf 
       simpa using this
   refine ⟨⟨?_, ?_, ?_⟩, hetag⟩
   · rw [hetag, hbody, htag]
-  · have : (update304 vers e k i fr none).cl = e.cl := rfl
+  · have : (update304 vers e k i fr cl).cl = e.cl := by
+      unfold update304
+      cases cl with
+      | none => rfl
+      | some n => simp only [skips_cl, if_true]
     rw [this]; exact hf.cl
   · intro t ht
     unfold update304 at ht
@@ -315,16 +321,11 @@ theorem stepReval_ok {vers : List Ver} (hv : VersOk vers) (i : Nat) {st : Step} 
     rw [hholds f hf1] at hf2
     cases hf2
   · -- 304: the entry is updated
-    have hcln : cl = none := by
-      cases cl with
-      | none => rfl
-      | some n => exact absurd (hcl n rfl) (hc.noCl n)
-    subst hcln
-    have htag := hc.sameTag e st.k none rfl hstale hr
-    obtain ⟨hf', hetag'⟩ := update304_faithful hv hf st.k i st.fresh htag
+    have htag := hc.sameTag e st.k cl rfl hstale hr
+    obtain ⟨hf', hetag'⟩ := update304_faithful hv hf st.k i st.fresh cl htag
     have hholds : ifMatchHolds st (verOf vers st.k).etag := hpf none (by rw [hV]; simp)
     simp only [hr]
-    by_cases hfw : forwards304 (update304 vers e st.k i st.fresh none) st = true
+    by_cases hfw : forwards304 (update304 vers e st.k i st.fresh cl) st = true
     · simp only [hfw, if_true]
       refine ⟨Or.inr ⟨_, hf', hetag', ?_⟩, stateOk_some hf'⟩
       rw [hetag']
@@ -343,18 +344,18 @@ theorem stepReval_ok {vers : List Ver} (hv : VersOk vers) (i : Nat) {st : Step} 
         | none => rw [hims] at hfw; cases hfw
         | some t =>
           rw [hims] at hfw
-          have hnm : modifiedSince (update304 vers e st.k i st.fresh none).view t = false := by simpa using hfw
+          have hnm : modifiedSince (update304 vers e st.k i st.fresh cl).view t = false := by simpa using hfw
           have hm0 := modTime_nonneg hf'
           unfold modifiedSince at hnm
           simp only [Bool.or_eq_false_iff, decide_eq_false_iff_not, Int.not_lt] at hnm
           have hnotpf : eval none st.im (some t) (verOf vers st.k).etag
-              (some (update304 vers e st.k i st.fresh none).view.modTime) ≠ .preconditionFailed := by
+              (some (update304 vers e st.k i st.fresh cl).view.modTime) ≠ .preconditionFailed := by
             rw [Ne, eval_pf_iff]
             rintro ⟨f, hf1, hf2⟩
             rw [hholds f hf1] at hf2
             cases hf2
           exact eval_none_ims hnotpf hnm.2
-    · have hfw' : forwards304 (update304 vers e st.k i st.fresh none) st = false := by simpa using hfw
+    · have hfw' : forwards304 (update304 vers e st.k i st.fresh cl) st = false := by simpa using hfw
       simp only [hfw', Bool.false_eq_true, if_false]
       refine ⟨⟨hf', ?_⟩, stateOk_some hf'⟩
       rw [hetag']; exact hholds
